@@ -27,7 +27,9 @@ cd "$S/verif/harness"
 if ! cargo build --release --offline -q -p checks --bin "$BIN" 2>"$S/build.log"; then
 	echo "MUTANT: build failed"; grep -E "^error" -A8 "$S/build.log" | head -40; echo "MUTANT-RC=2"; exit 2
 fi
-"$CARGO_TARGET_DIR/release/$BIN" --tier "$TIER" | cut -c1-400 | head -${MUTANT_LINES:-15}
-RC=${PIPESTATUS[0]}
+# (output goes through a file: `| head` would close the pipe early and make the checker die on a failed println)
+"$CARGO_TARGET_DIR/release/$BIN" --tier "$TIER" > "$S/out.log" 2>&1
+RC=$?
+cut -c1-400 "$S/out.log" | head -${MUTANT_LINES:-15}
 echo "MUTANT-RC=$RC"
 exit $RC
